@@ -49,6 +49,7 @@ partial def monitorLoop (h : IO.FS.Stream) (out : IO.FS.Stream) (b : Fosite.Spec
   else
     let f := match fields op with
       | "authorizeRU" :: rest => "authorize" :: rest.dropLast    -- judged like the plain authorization request
+      | "redeemAs" :: rest => "redeem" :: rest.dropLast          -- judged for the AUTHENTICATED client
       | f => f
     let o := Fosite.Spec.Monitor.outSeg obs
     let a := match f with
